@@ -498,7 +498,14 @@ func c14ExchangeMode(r *fw.R, what string, c *websocket.Conn, peerEnd *xport.End
 			// of either side, and the compressed ones after it still refer back to the compressed ones before it
 			r.Count("uncompressed_messages_between_compressed_ones", 1)
 		} else if p.Deflate {
-			f = wire.Data(wire.OpBinary, true, def.Message(m, 6, wire.EndSync))
+			end := wire.EndSync
+			if !mixed && (i == 1 || i == 5) {
+				// a sender may end a message with a final DEFLATE block (RFC 7692 7.2.3.4): the message is part of
+				// the shared context all the same, and later messages refer back into it
+				end = wire.EndBFinal
+				r.Count("messages_ended_with_a_final_deflate_block", 1)
+			}
+			f = wire.Data(wire.OpBinary, true, def.Message(m, 6, end))
 			f.Rsv1 = true
 		}
 		peer.Send(f)
